@@ -17,5 +17,10 @@ def plans(tier):
     ]
 
 
+def sweeps(chk, sd, binp):
+    import dist_common
+    dist_common.run(chk, sd, chk.tier, ['jump', 'addr'], {"C06"})
+
+
 def run(tier):
-    return pc.run_check("C06", tier, ("C06",), plans(tier), clauses={"DispatchToUnknown", "DispatchInWindow"})
+    return pc.run_check("C06", tier, ("C06",), plans(tier), clauses={"DispatchToUnknown", "DispatchInWindow"}, extra=sweeps)
